@@ -78,7 +78,11 @@ def build_world(sh, N):
             evs.append(M.event(en, e['dir'], 'void' if e['ret'] == 'void' else enum_sym, fs))
         if ex.get('formal_type') == 'ambiguous' and ii == 0:
             elements.append(wrap(ins[:-1], M.extern(ext_sym, N('dup_T_value', 'dup::type'))))
-        elements.append(wrap(ins, M.extern(ext_sym, ext_val)))
+        if ex.get('formal_type') == 'shadowed' and ii == 0:
+            elements.append(wrap(ins[:-1], M.extern(ext_sym, ext_val)))
+            elements.append(wrap(ins, M.enum(ext_sym, [N('shadow_f0', 'S0')])))
+        else:
+            elements.append(wrap(ins, M.extern(ext_sym, ext_val)))
         elements.append(wrap(ins, M.enum(enum_sym, fields)))
         elements.append(wrap(ins, M.interface(iname, evs)))
         itf_info.append({'fqn': ins + [iname], 'name': iname, 'events': events, 'ev_names': ev_names, 'ext_val': ext_val,
@@ -124,7 +128,7 @@ def build_cfg(sh, N, world, fct):
             return PortSelect(PortWildcard[kind])
         if kind == 'SETX':
             return PortSelect({N('not_a_port', 'notAPort')})
-        return PortSelect({names[int(kind[3:])]})
+        return PortSelect({names[int(c)] for c in kind[3:]})
     pk = {'ALL_MTS': ('NONE', 'ALL'), 'ALL_STS': ('ALL', 'NONE')}[sh['prov']]
     provides = PortsSemanticsCfg(select(pk[0], prov_names), select(pk[1], prov_names))
     requires = PortsSemanticsCfg(select(sh['req'][0], req_names), select(sh['req'][1], req_names))
@@ -172,9 +176,9 @@ def semantics(sh, port_info, pi):
         return 'MTS' if sh['prov'] == 'ALL_MTS' else 'STS'
     req_idx = [k for k, i in enumerate(port_info) if i['dir'] == 'requires' and not i['injected']].index(pi)
     sts, mts = sh['req']
-    if sts == f'SET{req_idx}':
+    if sts.startswith('SET') and str(req_idx) in sts[3:]:
         return 'STS'
-    if mts == f'SET{req_idx}':
+    if mts.startswith('SET') and str(req_idx) in mts[3:]:
         return 'MTS'
     if sts in ('ALL', 'REMAINING'):
         return 'STS'
@@ -297,6 +301,18 @@ def check_one(inp):
     again = Builder().build(cfg)
     if [(f.filename, f.contents) for f in again.files] != [(f.filename, f.contents) for f in files]:
         fail('a second build with the same inputs in the same process yields different files')
+    if prop in ('C08',) and not os.environ.get('REPLAY_CHILD'):
+        # the same input in fresh interpreters with different hash seeds must give byte-identical files
+        outs = []
+        for seed in ('0', '1', '2', '7'):
+            env = dict(os.environ, PYTHONHASHSEED=seed, REPLAY_CHILD='1')
+            pr = subprocess.run([sys.executable, __file__, json.dumps(dict(inp, dump=True))], capture_output=True,
+                                text=True, env=env)
+            outs.append(pr.stdout[pr.stdout.find('DUMP:'):])
+        if len(set(outs)) != 1:
+            fail('file contents / hashes differ between interpreter hash seeds')
+    if inp.get('dump'):
+        print('DUMP:' + json.dumps([(f.filename, f.hash, f.contents) for f in files]))
     if prop in ('C08',):
         for f in files:
             if f.hash != hashlib.md5(f.contents.encode('utf-8')).hexdigest():
@@ -310,7 +326,7 @@ def check_one(inp):
                 fail(f'support file {files[i + 2].filename} differs from its stand-alone generation')
     src_lines = code_lines(cc)
     hdr_lines = code_lines(hh)
-    if prop in ('C01', 'C02', 'C04', 'C07'):
+    if prop in ('C01', 'C02', 'C04', 'C07', 'C10'):
         got = [s for s in statements(src_lines) if touches(s) and not any('port.in.' in l or l.startswith('auto port(')
                                                                           for l in s)]
         want = W.constructor_statements(A, d)
